@@ -12,7 +12,7 @@ from dataclasses import dataclass
 from typing import Callable, Iterable
 
 from .cfg import CFG
-from .core import AnalysisError, Func, Program, Report, src, walk_own
+from .core import AnalysisError, Func, Program, Report, parent_of, src, walk_own
 from .norm import Resolver, fact_set
 
 
@@ -90,6 +90,65 @@ class FnView:
     def calls(self, name_re: str) -> list[ast.Call]:
         rx = re.compile(name_re)
         return [n for n in self.find(lambda n: isinstance(n, ast.Call)) if rx.fullmatch(src(n.func))]  # type: ignore[union-attr]
+
+
+
+_STMT_KINDS = (ast.Assign, ast.AnnAssign, ast.AugAssign, ast.Expr, ast.Return, ast.Raise, ast.Break, ast.Continue, ast.Delete, ast.Assert)
+
+
+def stmt_contexts(v: "FnView") -> dict[str, list[str]]:
+    """Control context of every simple statement of the function, keyed by its normalised text: the
+    atomic test outcomes that dominate it, the headers of the loops around it, and the exits of the
+    function it does not dominate (the exits that can be taken without it having run).  Two versions of
+    a function with the same statements and tests agree on these exactly when every statement is still
+    performed in the same cases, whatever the indentation / else-after-return layout."""
+    fn = v.fn.node
+    own = [st for st in walk_own(fn) if isinstance(st, _STMT_KINDS) and not (isinstance(st, ast.Expr) and isinstance(st.value, ast.Constant))]
+    exits = [st for st in own if isinstance(st, (ast.Return, ast.Raise, ast.Break, ast.Continue))]
+    dom = v.cfg.dominators()
+    out: dict[str, list[str]] = {}
+    for st in own:
+        n = v.cfg.node_for(st)
+        if n is None or n not in dom:
+            continue
+        loops = []
+        cur = parent_of(st)
+        while cur is not None and cur is not fn:
+            if isinstance(cur, (ast.For, ast.AsyncFor)):
+                loops.append("for " + " ".join(src(cur.target).split()) + " in " + " ".join(src(cur.iter).split()))
+            elif isinstance(cur, ast.While):
+                loops.append("while " + " ".join(src(cur.test).split()))
+            cur = parent_of(cur)
+        pre = []
+        # a plain assignment to locals (no call in it) that an exit of the *function* does not mention
+        # has no effect on that exit: moving it across such a return / raise changes nothing
+        tg = st.targets if isinstance(st, ast.Assign) else ([st.target] if isinstance(st, (ast.AnnAssign, ast.AugAssign)) else [])
+        local_only = bool(tg) and all(isinstance(t, ast.Name) for t in tg) and not any(isinstance(x, (ast.Call, ast.NamedExpr, ast.Await, ast.Yield)) for x in ast.walk(st))
+        assigned = {t.id for t in tg if isinstance(t, ast.Name)}
+        for e in exits:
+            if e is st:
+                continue
+            if local_only and isinstance(e, (ast.Return, ast.Raise)) and not any(isinstance(x, ast.Name) and x.id in assigned for x in ast.walk(e)):
+                continue
+            if local_only and isinstance(e, (ast.Break, ast.Continue)):
+                # the exit of a loop the statement is not in, which does not mention the assigned names
+                lp = parent_of(e)
+                while lp is not None and not isinstance(lp, (ast.For, ast.AsyncFor, ast.While)):
+                    lp = parent_of(lp)
+                if lp is not None and not any(y is st for y in ast.walk(lp)) and not any(isinstance(x, ast.Name) and x.id in assigned for x in ast.walk(lp)):
+                    continue
+            en = v.cfg.node_for(e)
+            if en is None or en not in dom:
+                continue
+            if n not in dom[en]:
+                pre.append(" ".join(src(e).split()))
+        # the exit condition of a `while` that is over says nothing about the cases in which a later
+        # statement runs: every run that gets past the loop has it
+        done = {id(x) for w in walk_own(fn) if isinstance(w, ast.While) and not any(y is st for y in ast.walk(w)) for x in ast.walk(w.test)}
+        g = [(a, o) for a, o in v.cfg.guards_at(st) if not (o is False and id(a) in done)]
+        d = "when " + " & ".join(sorted(fact_set(g))) + " | in " + " / ".join(loops) + " | not before " + " ; ".join(sorted(pre))
+        out.setdefault(" ".join(src(st).split()), []).append(d)
+    return {k: sorted(x) for k, x in out.items()}
 
 
 def _syntactic_noreturn(c: ast.Call) -> bool:
